@@ -371,6 +371,9 @@ func (f *frame) sendOp(x *ssa.Send) {
 	// ghost: closed flag per channel
 	cl := vc.lookup(f.st, "Gh.chan.closed", "(Array Int Bool)")
 	f.oblige("safety", "send-closed:"+f.keyOf(x.Chan, x.Pos()), nil, not(sx("select", cl, ch)), x.Pos())
+	// ghost: number of values sent per channel
+	sent := vc.lookup(f.st, "Gh.chan.sent", "(Array Int Int)")
+	f.st = vc.store(f.st, "Gh.chan.sent", "(Array Int Int)", sx("store", sent, ch, sx("+", sx("select", sent, ch), "1")))
 	vc.assumed["channel send: blocking and scheduling not modelled"] = true
 }
 
@@ -388,6 +391,9 @@ func (f *frame) selectOp(x *ssa.Select) {
 		if s.Dir == types.SendOnly {
 			cl := vc.lookup(f.st, "Gh.chan.closed", "(Array Int Bool)")
 			f.obligeAt(and(f.R, eq(idx, num(int64(i)))), "safety", "send-closed:"+f.keyOf(s.Chan, x.Pos()), nil, not(sx("select", cl, f.term(s.Chan))), x.Pos())
+			sent := vc.lookup(f.st, "Gh.chan.sent", "(Array Int Int)")
+			sc := f.term(s.Chan)
+			f.st = vc.store(f.st, "Gh.chan.sent", "(Array Int Int)", ite(eq(idx, num(int64(i))), sx("store", sent, sc, sx("+", sx("select", sent, sc), "1")), sent))
 		} else {
 			et := s.Chan.Type().Underlying().(*types.Chan).Elem()
 			r := vc.fresh("select.recv", vc.sortOf(et))
